@@ -33,6 +33,9 @@ func (h *hand) local(fx *fctx, nm string, v int) *Stmt {
 func (h *hand) q(fx *fctx) *Stmt {
 	p := h.g.pt("Q")
 	e := call(name("Q"), num(p.ID))
+	if x := fx.extraLevel(); x > 0 {
+		e.Args = append(e.Args, num(x))
+	}
 	e.Pt = p
 	h.g.observeFrame(fx, p, func() *Expr { return e })
 	return &Stmt{K: "call", Exprs: []*Expr{e}}
@@ -185,6 +188,51 @@ func corpusList() []corpusCase {
 			{K: "localfunc", Names: []string{"inner"}, Fn: inner},
 			{K: "localfunc", Names: []string{"outer"}, Fn: outer},
 			{K: "call", Exprs: []*Expr{call(name("R"), num(1), call(name("pcall"), name("outer")))}},
+		}
+		return finish(h.g, h.main)
+	})
+	// fixed 5239a70: a level that falls on a frame lost to a tail call addressed the bottom frame
+	add("levels-through-tail-calls", func() *Generated {
+		h := newHand(7)
+		fH := &Func{ID: h.g.fn()}
+		cH := &fctx{fn: fH, parent: h.fx, callerNLoc: -1, underPcall: true}
+		cH.push()
+		fG := &Func{ID: h.g.fn()}
+		cG := &fctx{fn: fG, parent: h.fx, callerNLoc: -1}
+		cG.push()
+		fG2 := &Func{ID: h.g.fn()}
+		cG2 := &fctx{fn: fG2, parent: h.fx, callerNLoc: -1, tailOf: cG}
+		cG2.push()
+		fF := &Func{ID: h.g.fn()}
+		cF := &fctx{fn: fF, parent: h.fx, callerNLoc: -1, tailOf: cG2}
+		cF.push()
+		callG := call(name("tg"))
+		pG := h.g.pt("chain")
+		callG.Pt = pG
+		cG.callSite, cG.callPt, cG.callerFn = callG, pG, cH
+		// F: queried, then error("m", 2)
+		er := call(name("error"), str("\"m\""), num(2))
+		zero := func() int { return 0 }
+		fF.Body = []*Stmt{h.local(cF, "f1", 1), h.q(cF), {K: "call", Exprs: []*Expr{er}}}
+		h.g.lines = append(h.g.lines, lineObs{"none", zero, zero, obsSrc{"err", 1, 0, 0}, "err:error2/tail"})
+		h.fx.declare(Binding{"tf", nil})
+		cG2.resolve("tf")
+		fG2.Body = []*Stmt{h.local(cG2, "g2", 2), h.q(cG2), {K: "do", Body: []*Stmt{{K: "return", Exprs: []*Expr{call(name("tf"))}}}}}
+		h.fx.declare(Binding{"tg2", nil})
+		cG.resolve("tg2")
+		fG.Body = []*Stmt{h.local(cG, "g1", 3), h.q(cG), {K: "return", Exprs: []*Expr{call(name("tg2"))}}}
+		h.fx.declare(Binding{"tg", nil})
+		cH.resolve("tg")
+		fH.Body = []*Stmt{h.local(cH, "h1", 4), {K: "local", Names: []string{"x"}, Exprs: []*Expr{callG}, Vals: []*int{nil}}, {K: "return", Exprs: []*Expr{num(1)}}}
+		h.fx.declare(Binding{"th", nil})
+		h.g.nScen = 1
+		h.main.Body = []*Stmt{
+			h.local(h.fx, "m1", 5),
+			{K: "localfunc", Names: []string{"tf"}, Fn: fF},
+			{K: "localfunc", Names: []string{"tg2"}, Fn: fG2},
+			{K: "localfunc", Names: []string{"tg"}, Fn: fG},
+			{K: "localfunc", Names: []string{"th"}, Fn: fH},
+			{K: "call", Exprs: []*Expr{call(name("R"), num(1), call(name("pcall"), name("th")))}},
 		}
 		return finish(h.g, h.main)
 	})
